@@ -265,6 +265,18 @@ def rule_shared(ctx: Ctx) -> None:
         dmp = P.find_method(sub.qualname, "dump")
         file_backed = dmp is not None and ctx.effects.has(dmp.qualname, FS_WRITE)
         proxy = sub.qualname in tainted
+        if file_backed:  # workers write files: the folder must not depend on the worker's working directory
+            for c in P.mro(sub.qualname):
+                init = c.methods.get("__init__") if hasattr(c, "methods") else None
+                if init is None:
+                    continue
+                for s_ in walk_no_nested(init.node):
+                    if isinstance(s_, ast.Assign) and any(norm(t) == "self.folder" for t in s_.targets):
+                        v = norm(Defs(init).resolve(s_.value))
+                        absolute = any(w in v for w in (".absolute()", ".resolve()", "abspath("))
+                        ctx.tri("5-shared", init, s_, absolute, not absolute and v.startswith("Path(") and v.endswith(")") and v.count("(") == 1,
+                                f"{sub.name} keeps an absolute folder: worker processes write where the parent reads", f"`self.folder = {v}` keeps a relative path: a worker whose working directory differs writes its elements elsewhere and the parent reads them back as missing",
+                                f"folder `{v[:40]}` not classified", key=f"absolute-folder {sub.name}")
         ctx.add("5-shared", sub.qualname, sub.loc, file_backed or proxy, f"{sub.name}: workers dump into {'files' if file_backed else 'a manager proxy'} that the parent can read" if file_backed or proxy else
                 f"{sub.name} lets workers dump but its storage is neither files nor a manager proxy: worker results never reach the parent", key=f"dis {sub.name}")
         for fld in tainted.get(sub.qualname, ()):
